@@ -103,7 +103,7 @@ def away(sp, rng):
 
 
 def check(ctx, fname, sname, sp, f, tags, rng, ref=None):
-    comp = fname
+    comp = functab.composed_component(fname, tags)
     cfg = util.space_tag(sp)
     try:
         grad = f.gradient
@@ -153,9 +153,13 @@ def check(ctx, fname, sname, sp, f, tags, rng, ref=None):
             except (NotImplementedError, odl.OpNotImplementedError):
                 pass
             ctx.ev('gradient-vs-values')
-            hs = fd.HS if 'c1' not in tags else (1e-2, 1e-3, 1e-4, 1e-5, 1e-6)
+            # functionals that are only piecewise smooth (norms, Huber, and anything translated / scaled from them: the
+            # kinks sit wherever the wrappers moved them) are differentiable at the base point but a kink may lie within
+            # the larger steps: decided by the smallest error, not by the convergence rate
+            kinked = 'c1' in tags or not any(t in tags for t in ('smooth', 'kl', 'klcc', 'exp'))
+            hs = fd.HS if not kinked else (1e-2, 1e-3, 1e-4, 1e-5, 1e-6)
             errs = fd.fd_errors(valf, sp.field, x, d, lhs, hs=hs)
-            if 'c1' in tags:
+            if kinked:
                 why = None if min(errs) < 1e-6 else 'fd-mismatch'
             else:
                 why = fd.verdict(errs)
@@ -192,6 +196,8 @@ def run(ctx):
     for sname, sp in list(functab.spaces()) + list(functab.pspaces()):
         for fname, thunk, tags, ref in extra(sp, crng):
             recipes.append((fname, sname, sp, thunk, tags, ref))
+    for rec in functab.all_composed(crng, ctx.thorough):
+        recipes.append(rec)
     for i, (fname, sname, sp, thunk, tags, ref) in enumerate(recipes):
         if not ctx.mine(i):
             continue
